@@ -204,6 +204,8 @@ def unhex(v):
 def tape_from(v, overrides=None):
     draws = []
     for d in v.get("draws") or []:
+        if d["name"].startswith("json.") or d["name"].startswith("rand."):
+            continue  # engine-internal choices (stub results), not harness draws
         val = d.get("value", "")
         if overrides and d["name"] in overrides:
             val = "hex:" + overrides[d["name"]].hex()
